@@ -3,7 +3,7 @@
     lengths), the distance matrix as the CODE computes it ([dist_matrix], the
     transcription of [_get_distances]) and as the SPECIFICATION defines it
     ([pathlen_matrix]), and the tip names.  No proofs here. *)
-From CG3 Require Import Lib.PyZ Lib.Val Lib.Rose Model.Tree Model.TreeMid Model.TreeJson Model.TreeDist Spec.TreeSpec.
+From CG3 Require Import Lib.PyZ Lib.Val Lib.Rose Model.Tree Model.TreeMid Model.TreeJson Model.TreeDist Spec.TreeSpec Spec.TreeTopoSpec.
 
 Inductive op : Type :=
 | ORootedAt (nm : name)
@@ -29,7 +29,9 @@ Fixpoint vtree (t : tree) : val :=
   end.
 
 Definition obs_tree (t : tree) : val :=
-  VL [vtree t; VL (map voptZ (dist_matrix 1 t)); VL (map VZ (pathlen_matrix 1 t)); VL (map VS (tips t))].
+  VL [vtree t; VL (map voptZ (dist_matrix 1 t)); VL (map VZ (pathlen_matrix 1 t)); VL (map VS (tips t));
+      (* the non-trivial splits of the specification (one side each) *)
+      VL (map (fun c => VL (map VS c)) (splits t))].
 
 Definition obs_res (r : res tree) : val :=
   match r with
